@@ -1,12 +1,29 @@
 // sites — type-aware extraction of the runtime-nondeterminism sites of the hub's production packages
-// (C12): every `range` over a map, every time.Now / math/rand / crypto/rand use, every `go` statement
-// and `select`, with the enclosing function and a syntactic classification of map-range bodies.
+// (C12).  One row per SITE (not per function):
+//
+//	maprange    `range` over a map-typed expression          cls = syntactic class of the loop (see classify)
+//	mapkeys     maps.Keys / Values / All / ... (std, x/exp)  cls = <pkg>.<fn>[+sorted]
+//	reflectmap  reflect.Value.MapKeys / MapRange             cls = method
+//	syncmap     (*sync.Map).Range                            cls = method
+//	wallclock   time.Now/Since/Until, <…/time>.Now           cls = <pkg path>.<fn>
+//	rand        math/rand, math/rand/v2, crypto/rand use     cls = <pkg>.<fn>; for NewSource: +" seed=<origin>"
+//	go, select  goroutines / select                          cls = -
+//	float       non-constant float32/float64 arithmetic      cls = operator or math.<fn>
+//	getenv      os.Getenv / LookupEnv / Environ / ExpandEnv  cls = fn
+//	fmtptr      `%p` in a constant format string, or a *capability.Capability handed to a
+//	            formatting call (its String() prints the heap address)   cls = "%p" | "capability"
+//
+// Every row carries the enclosing function and `ord`, the 0-based ordinal of the site among the
+// sites of the same (file, function, kind) in source order: the allow-list of Props/C12.lean names
+// (kind, file, fn, cls, ord), so a second site added to an allow-listed function is a new row
+// that no entry covers.
 // Output: a Lean file with the site table (`Gen/MapSites.lean`).
 package main
 
 import (
 	"fmt"
 	"go/ast"
+	"go/constant"
 	"go/token"
 	"go/types"
 	"os"
@@ -19,19 +36,42 @@ import (
 
 type site struct {
 	Kind, File, Func, Class string
-	Line                    int
+	Line, Col, Ord          int
+}
+
+// a call argument bound to a parameter of a function (for the origin of a PRNG seed)
+type callArg struct {
+	info *types.Info
+	expr ast.Expr
+	encl *ast.FuncDecl
+}
+
+func excluded(rel string) bool {
+	return strings.HasSuffix(rel, "_test.go") || strings.HasSuffix(rel, ".pb.go") || strings.HasSuffix(rel, ".pb.gw.go") ||
+		strings.Contains(rel, "/simulation/") || strings.Contains(rel, "/client/cli/") || strings.Contains(rel, "apptesting") || strings.Contains(rel, "testutil")
 }
 
 func main() {
 	repo, out := os.Args[1], os.Args[2]
+	sites, npkgs, err := extract(repo)
+	if err != nil {
+		fmt.Fprintln(os.Stderr, "sites:", err)
+		os.Exit(1)
+	}
+	if err := os.WriteFile(out, []byte(render(sites)), 0o644); err != nil {
+		panic(err)
+	}
+	fmt.Printf("sites: %d sites in %d packages\n", len(sites), npkgs)
+}
+
+func extract(repo string) ([]site, int, error) {
+	repo, _ = filepath.Abs(repo)
 	cfg := &packages.Config{Mode: packages.NeedName | packages.NeedFiles | packages.NeedSyntax | packages.NeedTypes | packages.NeedTypesInfo | packages.NeedImports,
 		Dir: repo, Env: append(os.Environ(), "GOFLAGS=-mod=mod", "GOPROXY=off", "GOSUMDB=off")}
 	pkgs, err := packages.Load(cfg, "./x/...", "./app/...", "./utils/...", "./internal/...")
 	if err != nil {
-		fmt.Fprintln(os.Stderr, "load:", err)
-		os.Exit(1)
+		return nil, 0, fmt.Errorf("load: %v", err)
 	}
-	var sites []site
 	nerr := 0
 	for _, p := range pkgs {
 		for _, e := range p.Errors {
@@ -40,67 +80,140 @@ func main() {
 				fmt.Fprintln(os.Stderr, "pkg error:", e)
 			}
 		}
-		for i, f := range p.Syntax {
-			_ = i
-			fn := p.Fset.Position(f.Pos()).Filename
-			rel, _ := filepath.Rel(repo, fn)
-			if strings.HasSuffix(rel, "_test.go") || strings.HasSuffix(rel, ".pb.go") || strings.HasSuffix(rel, ".pb.gw.go") ||
-				strings.Contains(rel, "/simulation/") || strings.Contains(rel, "/client/cli/") || strings.Contains(rel, "apptesting") || strings.Contains(rel, "testutil") {
+	}
+	if nerr > 0 {
+		return nil, 0, fmt.Errorf("%d package errors", nerr)
+	}
+	// pass 1: every call of a function declared in the loaded packages, per callee and parameter index
+	// (non-test, non-excluded callers only)
+	callers := map[*types.Func][][]callArg{}
+	for _, p := range pkgs {
+		for _, f := range p.Syntax {
+			rel, _ := filepath.Rel(repo, p.Fset.Position(f.Pos()).Filename)
+			if excluded(rel) {
 				continue
 			}
-			var stack []string
-			var visit func(n ast.Node) bool
-			visit = func(n ast.Node) bool {
-				switch x := n.(type) {
-				case *ast.FuncDecl:
-					name := x.Name.Name
-					if x.Recv != nil && len(x.Recv.List) == 1 {
-						name = recv(x.Recv.List[0].Type) + "." + name
+			for _, d := range f.Decls {
+				fd, ok := d.(*ast.FuncDecl)
+				if !ok || fd.Body == nil {
+					continue
+				}
+				ast.Inspect(fd.Body, func(n ast.Node) bool {
+					c, ok := n.(*ast.CallExpr)
+					if !ok {
+						return true
 					}
-					stack = append(stack, name)
-					if x.Body != nil {
-						ast.Inspect(x.Body, visit)
+					if fn := calleeOf(c, p.TypesInfo); fn != nil {
+						args := make([]callArg, len(c.Args))
+						for i, a := range c.Args {
+							args[i] = callArg{p.TypesInfo, a, fd}
+						}
+						callers[fn] = append(callers[fn], args)
 					}
+					return true
+				})
+			}
+		}
+	}
+	// pass 2: the sites
+	var sites []site
+	for _, p := range pkgs {
+		info := p.TypesInfo
+		for _, f := range p.Syntax {
+			rel, _ := filepath.Rel(repo, p.Fset.Position(f.Pos()).Filename)
+			if excluded(rel) {
+				continue
+			}
+			var stack []ast.Node
+			add := func(kind, cls string, pos token.Pos) {
+				ps := p.Fset.Position(pos)
+				sites = append(sites, site{Kind: kind, File: rel, Func: enclName(stack), Class: cls, Line: ps.Line, Col: ps.Column})
+			}
+			ast.Inspect(f, func(n ast.Node) bool {
+				if n == nil {
 					stack = stack[:len(stack)-1]
-					return false
+					return true
+				}
+				stack = append(stack, n)
+				switch x := n.(type) {
 				case *ast.RangeStmt:
-					if t := p.TypesInfo.TypeOf(x.X); t != nil {
+					if t := info.TypeOf(x.X); t != nil {
 						if _, ok := t.Underlying().(*types.Map); ok {
-							sites = append(sites, site{"maprange", rel, cur(stack), classify(x, p.TypesInfo), p.Fset.Position(x.Pos()).Line})
+							add("maprange", classify(x, info, stack), x.Pos())
 						}
 					}
 				case *ast.GoStmt:
-					sites = append(sites, site{"go", rel, cur(stack), "-", p.Fset.Position(x.Pos()).Line})
+					add("go", "-", x.Pos())
 				case *ast.SelectStmt:
-					sites = append(sites, site{"select", rel, cur(stack), "-", p.Fset.Position(x.Pos()).Line})
+					add("select", "-", x.Pos())
+				case *ast.BinaryExpr:
+					switch x.Op {
+					case token.ADD, token.SUB, token.MUL, token.QUO:
+						if isFloat(info.TypeOf(x)) && !isConst(info, x) {
+							add("float", x.Op.String(), x.Pos())
+						}
+					}
+				case *ast.AssignStmt:
+					switch x.Tok {
+					case token.ADD_ASSIGN, token.SUB_ASSIGN, token.MUL_ASSIGN, token.QUO_ASSIGN:
+						if len(x.Lhs) == 1 && isFloat(info.TypeOf(x.Lhs[0])) {
+							add("float", x.Tok.String(), x.Pos())
+						}
+					}
+				case *ast.CallExpr:
+					callSites(x, info, add)
 				case *ast.SelectorExpr:
 					if id, ok := x.X.(*ast.Ident); ok {
-						if pn, ok := p.TypesInfo.Uses[id].(*types.PkgName); ok {
+						if pn, ok := info.Uses[id].(*types.PkgName); ok {
 							path := pn.Imported().Path()
-							if path == "time" && (x.Sel.Name == "Now" || x.Sel.Name == "Since" || x.Sel.Name == "Until") {
-								sites = append(sites, site{"wallclock", rel, cur(stack), x.Sel.Name, p.Fset.Position(x.Pos()).Line})
+							if (path == "time" && (x.Sel.Name == "Now" || x.Sel.Name == "Since" || x.Sel.Name == "Until")) ||
+								(strings.HasSuffix(path, "/time") && x.Sel.Name == "Now") {
+								add("wallclock", path+"."+x.Sel.Name, x.Pos())
 							}
 							if path == "math/rand" || path == "crypto/rand" || path == "math/rand/v2" {
-								sites = append(sites, site{"rand", rel, cur(stack), path + "." + x.Sel.Name, p.Fset.Position(x.Pos()).Line})
+								cls := path + "." + x.Sel.Name
+								if x.Sel.Name == "NewSource" || x.Sel.Name == "NewPCG" || x.Sel.Name == "NewChaCha8" || x.Sel.Name == "Seed" {
+									if len(stack) >= 2 {
+										if c, ok := stack[len(stack)-2].(*ast.CallExpr); ok && c.Fun == ast.Expr(x) && len(c.Args) >= 1 {
+											cls += " seed=" + seedOrigin(c.Args[0], info, enclDecl(stack), callers, 0)
+										}
+									}
+								}
+								add("rand", cls, x.Pos())
+							}
+							if path == "os" && (x.Sel.Name == "Getenv" || x.Sel.Name == "LookupEnv" || x.Sel.Name == "Environ" || x.Sel.Name == "ExpandEnv") {
+								add("getenv", x.Sel.Name, x.Pos())
 							}
 						}
 					}
 				}
 				return true
-			}
-			ast.Inspect(f, visit)
+			})
 		}
-	}
-	if nerr > 0 {
-		fmt.Fprintf(os.Stderr, "sites: %d package errors\n", nerr)
-		os.Exit(1)
 	}
 	sort.Slice(sites, func(i, j int) bool {
-		if sites[i].File != sites[j].File {
-			return sites[i].File < sites[j].File
+		a, b := sites[i], sites[j]
+		if a.File != b.File {
+			return a.File < b.File
 		}
-		return sites[i].Line < sites[j].Line
+		if a.Line != b.Line {
+			return a.Line < b.Line
+		}
+		if a.Col != b.Col {
+			return a.Col < b.Col
+		}
+		return a.Kind < b.Kind
 	})
+	ords := map[string]int{}
+	for i := range sites {
+		k := sites[i].File + "\x00" + sites[i].Func + "\x00" + sites[i].Kind
+		sites[i].Ord = ords[k]
+		ords[k]++
+	}
+	return sites, len(pkgs), nil
+}
+
+func render(sites []site) string {
 	var b strings.Builder
 	b.WriteString("-- GENERATED by /verif/sites (go/packages + go/types) from /repo's working tree. Do not edit.\n")
 	b.WriteString("import DymVerif.Model.Determinism\nnamespace DymVerif.Gen.MapSites\nopen DymVerif.Det\n\n")
@@ -110,20 +223,155 @@ func main() {
 		if i == len(sites)-1 {
 			sep = ""
 		}
-		fmt.Fprintf(&b, "  { kind := .%s, file := %q, fn := %q, cls := %q }%s -- line %d\n", s.Kind, s.File, s.Func, s.Class, sep, s.Line)
+		fmt.Fprintf(&b, "  { kind := .%s, file := %q, fn := %q, cls := %q, ord := %d }%s -- line %d\n", s.Kind, s.File, s.Func, s.Class, s.Ord, sep, s.Line)
 	}
 	b.WriteString("]\n\nend DymVerif.Gen.MapSites\n")
-	if err := os.WriteFile(out, []byte(b.String()), 0o644); err != nil {
-		panic(err)
-	}
-	fmt.Printf("sites: %d sites in %d packages\n", len(sites), len(pkgs))
+	return b.String()
 }
 
-func cur(stack []string) string {
-	if len(stack) == 0 {
+// callSites: the site kinds that are calls
+func callSites(c *ast.CallExpr, info *types.Info, add func(kind, cls string, pos token.Pos)) {
+	if sel, ok := c.Fun.(*ast.SelectorExpr); ok {
+		if id, ok := sel.X.(*ast.Ident); ok {
+			if pn, ok := info.Uses[id].(*types.PkgName); ok {
+				path := pn.Imported().Path()
+				if path == "maps" || strings.HasSuffix(path, "/maps") {
+					switch sel.Sel.Name {
+					case "Keys", "Values", "All", "Collect", "Insert":
+						if len(c.Args) >= 1 {
+							if t := info.TypeOf(c.Args[0]); t != nil {
+								if _, ok := t.Underlying().(*types.Map); !ok && sel.Sel.Name != "Keys" && sel.Sel.Name != "Values" && sel.Sel.Name != "All" {
+									return // maps.Collect / Insert over a non-map sequence
+								}
+							}
+						}
+						add("mapkeys", path+"."+sel.Sel.Name, c.Pos())
+					}
+				}
+				if path == "math" && isFloat(info.TypeOf(c)) && !isConst(info, c) {
+					add("float", "math."+sel.Sel.Name, c.Pos())
+				}
+			}
+		}
+		// methods
+		if s, ok := info.Selections[sel]; ok && s.Kind() == types.MethodVal {
+			recv := types.TypeString(deref(s.Recv()), nil)
+			switch {
+			case recv == "reflect.Value" && (sel.Sel.Name == "MapKeys" || sel.Sel.Name == "MapRange"):
+				add("reflectmap", sel.Sel.Name, c.Pos())
+			case recv == "sync.Map" && sel.Sel.Name == "Range":
+				add("syncmap", "Range", c.Pos())
+			}
+		}
+	}
+	// formatting: `%p` in a constant format string, or a capability pointer among the arguments of a
+	// variadic (...any) call
+	variadicAny := false
+	if sig, ok := info.TypeOf(c.Fun).(*types.Signature); ok && sig.Variadic() {
+		if sl, ok := sig.Params().At(sig.Params().Len() - 1).Type().(*types.Slice); ok {
+			if it, ok := sl.Elem().Underlying().(*types.Interface); ok && it.Empty() {
+				variadicAny = true
+			}
+		}
+	}
+	for _, a := range c.Args {
+		if tv, ok := info.Types[a]; ok && tv.Value != nil && tv.Value.Kind() == constant.String {
+			if hasPtrVerb(constant.StringVal(tv.Value)) {
+				add("fmtptr", "%p", a.Pos())
+			}
+		}
+		if variadicAny {
+			if t := info.TypeOf(a); t != nil {
+				if _, isPtr := t.(*types.Pointer); isPtr && strings.HasSuffix(types.TypeString(deref(t), nil), "capability/types.Capability") {
+					add("fmtptr", "capability", a.Pos())
+				}
+			}
+		}
+	}
+}
+
+// hasPtrVerb: a `%p` verb (flags / width between `%` and the verb allowed; `%%` skipped)
+func hasPtrVerb(s string) bool {
+	for i := 0; i < len(s); i++ {
+		if s[i] != '%' {
+			continue
+		}
+		j := i + 1
+		for j < len(s) && strings.IndexByte("+-# 0123456789.*[]", s[j]) >= 0 {
+			j++
+		}
+		if j < len(s) {
+			if s[j] == 'p' {
+				return true
+			}
+			i = j
+		}
+	}
+	return false
+}
+
+func deref(t types.Type) types.Type {
+	if p, ok := t.(*types.Pointer); ok {
+		return p.Elem()
+	}
+	return t
+}
+
+func isFloat(t types.Type) bool {
+	if t == nil {
+		return false
+	}
+	b, ok := t.Underlying().(*types.Basic)
+	return ok && b.Info()&types.IsFloat != 0
+}
+
+func isConst(info *types.Info, e ast.Expr) bool {
+	tv, ok := info.Types[e]
+	return ok && tv.Value != nil
+}
+
+func calleeOf(c *ast.CallExpr, info *types.Info) *types.Func {
+	var id *ast.Ident
+	switch f := c.Fun.(type) {
+	case *ast.Ident:
+		id = f
+	case *ast.SelectorExpr:
+		id = f.Sel
+	case *ast.IndexExpr:
+		if i, ok := f.X.(*ast.Ident); ok {
+			id = i
+		} else if s, ok := f.X.(*ast.SelectorExpr); ok {
+			id = s.Sel
+		}
+	}
+	if id == nil {
+		return nil
+	}
+	if fn, ok := info.Uses[id].(*types.Func); ok {
+		return fn.Origin()
+	}
+	return nil
+}
+
+func enclDecl(stack []ast.Node) *ast.FuncDecl {
+	for i := len(stack) - 1; i >= 0; i-- {
+		if fd, ok := stack[i].(*ast.FuncDecl); ok {
+			return fd
+		}
+	}
+	return nil
+}
+
+func enclName(stack []ast.Node) string {
+	fd := enclDecl(stack)
+	if fd == nil {
 		return "<init>"
 	}
-	return stack[len(stack)-1]
+	name := fd.Name.Name
+	if fd.Recv != nil && len(fd.Recv.List) == 1 {
+		name = recv(fd.Recv.List[0].Type) + "." + name
+	}
+	return name
 }
 
 func recv(e ast.Expr) string {
@@ -134,33 +382,191 @@ func recv(e ast.Expr) string {
 		return t.Name
 	case *ast.IndexExpr:
 		return recv(t.X)
+	case *ast.IndexListExpr:
+		return recv(t.X)
 	}
 	return "?"
 }
 
-// classify gives a syntactic class to the body of a map range.
-//   collectKeys   — body only appends the key/value to a slice (a sort must follow; checked by `sortedAfter`)
-//   membership    — body only reads/deletes/sets entries of maps, or compares
-//   accumulate    — body only adds into integer/coin accumulators (commutative)
-//   unknown       — anything else
-func classify(r *ast.RangeStmt, info *types.Info) string {
-	onlyAppend, onlyMapOps := true, true
-	for _, st := range r.Body.List {
-		switch s := st.(type) {
-		case *ast.AssignStmt:
-			isAppend := false
-			if len(s.Rhs) == 1 {
-				if c, ok := s.Rhs[0].(*ast.CallExpr); ok {
-					if id, ok := c.Fun.(*ast.Ident); ok && id.Name == "append" {
-						isAppend = true
+// seedOrigin: where the seed expression of a PRNG constructor comes from
+//
+//	msgField        a field / getter of a value whose type is a proto `Msg…` message
+//	ctx             a method of sdk.Context (block height / time / header hash: consensus data)
+//	const           a compile-time constant
+//	param<-X        a parameter of the enclosing function; X joins the origins at every call of it
+//	                in the production packages (`nocaller` if there is none)
+//	time            mentions the wall clock
+//	globalrand      mentions a rand package (global source)
+//	other           anything else
+func seedOrigin(e ast.Expr, info *types.Info, encl *ast.FuncDecl, callers map[*types.Func][][]callArg, depth int) string {
+	bad := ""
+	ast.Inspect(e, func(n ast.Node) bool {
+		if sel, ok := n.(*ast.SelectorExpr); ok {
+			if id, ok := sel.X.(*ast.Ident); ok {
+				if pn, ok := info.Uses[id].(*types.PkgName); ok {
+					path := pn.Imported().Path()
+					if path == "time" || strings.HasSuffix(path, "/time") {
+						bad = "time"
+					}
+					if path == "math/rand" || path == "math/rand/v2" || path == "crypto/rand" {
+						bad = "globalrand"
+					}
+					if path == "os" {
+						bad = "other"
 					}
 				}
 			}
-			if !isAppend {
-				onlyAppend = false
+		}
+		return true
+	})
+	if bad != "" {
+		return bad
+	}
+	if isConst(info, e) {
+		return "const"
+	}
+	switch x := e.(type) {
+	case *ast.ParenExpr:
+		return seedOrigin(x.X, info, encl, callers, depth)
+	case *ast.CallExpr:
+		// conversion int64(x) or getter msg.GetRng() / ctx.BlockHeight()
+		if tv, ok := info.Types[x.Fun]; ok && tv.IsType() && len(x.Args) == 1 {
+			return seedOrigin(x.Args[0], info, encl, callers, depth)
+		}
+		if sel, ok := x.Fun.(*ast.SelectorExpr); ok && len(x.Args) == 0 {
+			return recvOrigin(sel.X, info)
+		}
+	case *ast.SelectorExpr:
+		return recvOrigin(x.X, info)
+	case *ast.Ident:
+		obj := info.Uses[x]
+		if encl != nil && obj != nil && depth < 3 {
+			if fobj, ok := info.Defs[encl.Name].(*types.Func); ok {
+				sig := fobj.Type().(*types.Signature)
+				for i := 0; i < sig.Params().Len(); i++ {
+					if sig.Params().At(i) == obj {
+						cs := callers[fobj.Origin()]
+						if len(cs) == 0 {
+							return "param<-nocaller"
+						}
+						set := map[string]bool{}
+						for _, args := range cs {
+							if i < len(args) {
+								set[seedOrigin(args[i].expr, args[i].info, args[i].encl, callers, depth+1)] = true
+							} else {
+								set["other"] = true
+							}
+						}
+						var ks []string
+						for k := range set {
+							ks = append(ks, k)
+						}
+						sort.Strings(ks)
+						return "param<-" + strings.Join(ks, "|")
+					}
+				}
 			}
+		}
+	}
+	return "other"
+}
+
+func recvOrigin(e ast.Expr, info *types.Info) string {
+	t := info.TypeOf(e)
+	if t == nil {
+		return "other"
+	}
+	t = deref(t)
+	if n, ok := t.(*types.Named); ok {
+		name := n.Obj().Name()
+		if name == "Context" && n.Obj().Pkg() != nil && strings.HasSuffix(n.Obj().Pkg().Path(), "cosmos-sdk/types") {
+			return "ctx"
+		}
+		if strings.HasPrefix(name, "Msg") {
+			ms := types.NewMethodSet(types.NewPointer(n))
+			if ms.Lookup(nil, "ProtoMessage") != nil {
+				return "msgField"
+			}
+		}
+	}
+	return "other"
+}
+
+// classify gives a syntactic class to the body of a map range.
+//
+//	collectKeys      body only appends the range KEY to one slice
+//	collectValues    body only appends (an expression of) the range value / key to one slice
+//	collectFiltered  body is one `if` without else whose body only appends to one slice
+//	membership       body only sets / deletes entries of maps
+//	accumulate       body only adds into accumulators (`x += e`, `x = x.Add(e)`)
+//	unknown          anything else
+//
+// the three `collect…` classes get the suffix `+sorted` when the collected slice is sorted by a
+// later statement of the enclosing block (sort.X(s…), slices.SortX(s…), s.Sort()) or by a deferred
+// closure of the enclosing function.
+func classify(r *ast.RangeStmt, info *types.Info, stack []ast.Node) string {
+	body := r.Body.List
+	if len(body) == 0 {
+		return "unknown"
+	}
+	keyObj := identObj(r.Key, info)
+	cls := "unknown"
+	var slice types.Object
+	appendsOnly := func(sts []ast.Stmt) (types.Object, bool, bool) {
+		var s types.Object
+		onlyKey := true
+		if len(sts) == 0 {
+			return nil, false, false
+		}
+		for _, st := range sts {
+			as, ok := st.(*ast.AssignStmt)
+			if !ok || len(as.Lhs) != 1 || len(as.Rhs) != 1 || as.Tok != token.ASSIGN {
+				return nil, false, false
+			}
+			c, ok := as.Rhs[0].(*ast.CallExpr)
+			if !ok || len(c.Args) < 2 {
+				return nil, false, false
+			}
+			if id, ok := c.Fun.(*ast.Ident); !ok || id.Name != "append" || info.Uses[id] != types.Universe.Lookup("append") {
+				return nil, false, false
+			}
+			lo, ao := identObj(as.Lhs[0], info), identObj(c.Args[0], info)
+			if lo == nil || lo != ao || (s != nil && s != lo) {
+				return nil, false, false
+			}
+			s = lo
+			for _, a := range c.Args[1:] {
+				if o := identObj(a, info); o == nil || o != keyObj {
+					onlyKey = false
+				}
+			}
+		}
+		return s, onlyKey, true
+	}
+	if s, onlyKey, ok := appendsOnly(body); ok {
+		slice = s
+		if onlyKey {
+			cls = "collectKeys"
+		} else {
+			cls = "collectValues"
+		}
+	} else if ifs, ok := body[0].(*ast.IfStmt); ok && len(body) == 1 && ifs.Else == nil && ifs.Init == nil {
+		if s, _, ok := appendsOnly(ifs.Body.List); ok {
+			slice, cls = s, "collectFiltered"
+		}
+	}
+	if slice != nil {
+		if sortedLater(r, slice, info, stack) {
+			cls += "+sorted"
+		}
+		return cls
+	}
+	onlyMapOps, onlyAcc := true, true
+	for _, st := range body {
+		switch s := st.(type) {
+		case *ast.AssignStmt:
 			isMapSet := false
-			if len(s.Lhs) == 1 {
+			if len(s.Lhs) == 1 && s.Tok == token.ASSIGN {
 				if ix, ok := s.Lhs[0].(*ast.IndexExpr); ok {
 					if t := info.TypeOf(ix.X); t != nil {
 						if _, ok := t.Underlying().(*types.Map); ok {
@@ -172,8 +578,27 @@ func classify(r *ast.RangeStmt, info *types.Info) string {
 			if !isMapSet {
 				onlyMapOps = false
 			}
+			isAcc := false
+			if len(s.Lhs) == 1 && len(s.Rhs) == 1 {
+				lo := identObj(s.Lhs[0], info)
+				if s.Tok == token.ADD_ASSIGN && lo != nil {
+					if b, ok := info.TypeOf(s.Lhs[0]).Underlying().(*types.Basic); ok && b.Info()&types.IsInteger != 0 {
+						isAcc = true
+					}
+				}
+				if s.Tok == token.ASSIGN && lo != nil {
+					if c, ok := s.Rhs[0].(*ast.CallExpr); ok {
+						if sel, ok := c.Fun.(*ast.SelectorExpr); ok && sel.Sel.Name == "Add" && identObj(sel.X, info) == lo {
+							isAcc = true
+						}
+					}
+				}
+			}
+			if !isAcc {
+				onlyAcc = false
+			}
 		case *ast.ExprStmt:
-			onlyAppend = false
+			onlyAcc = false
 			if c, ok := s.X.(*ast.CallExpr); ok {
 				if id, ok := c.Fun.(*ast.Ident); ok && id.Name == "delete" {
 					continue
@@ -181,16 +606,110 @@ func classify(r *ast.RangeStmt, info *types.Info) string {
 			}
 			onlyMapOps = false
 		default:
-			onlyAppend, onlyMapOps = false, false
+			onlyMapOps, onlyAcc = false, false
 		}
 	}
 	switch {
-	case len(r.Body.List) > 0 && onlyAppend:
-		return "collectKeys"
-	case len(r.Body.List) > 0 && onlyMapOps:
+	case onlyMapOps:
 		return "membership"
+	case onlyAcc:
+		return "accumulate"
 	}
 	return "unknown"
 }
 
-var _ = token.NoPos
+func identObj(e ast.Expr, info *types.Info) types.Object {
+	if e == nil {
+		return nil
+	}
+	if id, ok := e.(*ast.Ident); ok {
+		if o := info.Uses[id]; o != nil {
+			return o
+		}
+		return info.Defs[id]
+	}
+	return nil
+}
+
+func mentions(e ast.Node, obj types.Object, info *types.Info) bool {
+	found := false
+	ast.Inspect(e, func(n ast.Node) bool {
+		if id, ok := n.(*ast.Ident); ok && info.Uses[id] == obj {
+			found = true
+		}
+		return !found
+	})
+	return found
+}
+
+func isSortCallOn(c *ast.CallExpr, obj types.Object, info *types.Info) bool {
+	sel, ok := c.Fun.(*ast.SelectorExpr)
+	if !ok {
+		return false
+	}
+	if id, ok := sel.X.(*ast.Ident); ok {
+		if pn, ok := info.Uses[id].(*types.PkgName); ok {
+			path := pn.Imported().Path()
+			if path == "sort" || path == "slices" || strings.HasSuffix(path, "/slices") {
+				switch sel.Sel.Name {
+				case "Strings", "Ints", "Float64s", "Slice", "SliceStable", "Sort", "Stable", "SortFunc", "SortStableFunc":
+					return len(c.Args) >= 1 && mentions(c.Args[0], obj, info)
+				}
+			}
+			return false
+		}
+		if info.Uses[id] == obj && sel.Sel.Name == "Sort" {
+			return true
+		}
+	}
+	return false
+}
+
+func sortedLater(r *ast.RangeStmt, slice types.Object, info *types.Info, stack []ast.Node) bool {
+	// later statements of the directly enclosing statement list
+	if len(stack) >= 2 {
+		var list []ast.Stmt
+		switch p := stack[len(stack)-2].(type) {
+		case *ast.BlockStmt:
+			list = p.List
+		case *ast.CaseClause:
+			list = p.Body
+		case *ast.CommClause:
+			list = p.Body
+		}
+		after := false
+		for _, st := range list {
+			if st == ast.Stmt(r) {
+				after = true
+				continue
+			}
+			if !after {
+				continue
+			}
+			if es, ok := st.(*ast.ExprStmt); ok {
+				if c, ok := es.X.(*ast.CallExpr); ok && isSortCallOn(c, slice, info) {
+					return true
+				}
+			}
+		}
+	}
+	// a deferred closure of the enclosing function that sorts the slice
+	if fd := enclDecl(stack); fd != nil && fd.Body != nil {
+		found := false
+		ast.Inspect(fd.Body, func(n ast.Node) bool {
+			if d, ok := n.(*ast.DeferStmt); ok {
+				ast.Inspect(d.Call, func(m ast.Node) bool {
+					if c, ok := m.(*ast.CallExpr); ok && isSortCallOn(c, slice, info) {
+						found = true
+					}
+					return !found
+				})
+			}
+			return !found
+		})
+		if found {
+			return true
+		}
+	}
+	return false
+}
